@@ -1168,6 +1168,9 @@ def convpipe_family(tier, seed):
                 tag(f, f"linked:{i}")
                 _KEEP.append(f)
                 out.append(link_function(f, P[lvl][it["dst"]]))
+            elif k == "func_builtin":
+                # a builtin factory used as a linked function: it receives the model (`list(model)`), it is not "the empty list"
+                out.append(link_function({"list": list, "tuple": tuple}[it["func"]], P[lvl][it["dst"]]))
             elif k == "allow":
                 out.append(allow_unlinked_optional(P[lvl][it["dst"]]))
         if cfg.get("same_type_coercer"):
@@ -1278,6 +1281,10 @@ def convpipe_family(tier, seed):
         {"src_fields": ["a", "b"], "dst_fields": [("a", False), ("d", True), ("z", True)], "params": ["extra"],
          "recipe": [{"k": "allow", "dst": "d", "level": "top"}, {"k": "allow", "dst": "z", "level": "top"},
                     {"k": "func", "dst": "d", "kwonly": ["b"], "pos": [], "level": "top"}, {"k": "link_param", "param": "extra", "dst": "z", "level": "top"}]},
+        {"src_fields": ["a"], "dst_fields": [("a", False), ("c", False)], "params": [],
+         "recipe": [{"k": "func_builtin", "func": "list", "dst": "c", "level": "top"}]},
+        {"src_fields": ["a", "b"], "dst_fields": [("a", False), ("c", False)], "params": ["x"],
+         "recipe": [{"k": "func_builtin", "func": "tuple", "dst": "c", "level": "top"}]},
         # a mutable constant: every converted object gets its own copy (a display evaluated in the body)
         {"src_fields": ["a"], "dst_fields": [("a", False), ("c", False)], "params": [],
          "recipe": [{"k": "const", "dst": "c", "value": [1, 2], "level": "top"}]},
